@@ -1199,3 +1199,16 @@ Proof.
   unfold raw_new_const, raw_new. destruct (Z.of_nat (length data) =? _) eqn:E; cbn [negb]; split; intros H;
     try (exfalso; lia); split; reflexivity.
 Qed.
+
+(* ---- ImageDrawable::draw_sub_image called directly on a SubImage ------------------------------------ *)
+(* sub_image.rs:60-67 only re-bases; the bounds tests are those of the ROOT image (image_raw.rs:226-231).  So a
+   direct call with an area outside the SubImage's own box, but inside the root, draws root pixels the SubImage
+   does not show.  (Not reachable through `sub_image()`, which clips first; the trait documents the method as
+   not for user code.) *)
+Theorem d_draw_sub_image_root d : forall a,
+  d_draw_sub_image d a = raw_draw_sub_image (d_root d) (translate_rect a (d_origin d)).
+Proof.
+  induction d as [img|parent IH a0]; intros a; cbn [d_draw_sub_image d_root d_origin].
+  - unfold translate_rect. rewrite padd_zero_r. destruct a as [t s]. reflexivity.
+  - rewrite IH. f_equal. unfold translate_rect. cbn [tl sz]. rewrite padd_assoc. reflexivity.
+Qed.
